@@ -33,6 +33,30 @@ CLAIMS = {
         design="3/C14"),
 }
 
+CLAIMS["C03"] = dict(
+    technique="exhaustive small-graph enumeration + Hypothesis-generated "
+              "graphs against an independent dense reference model of every "
+              "measure's definition",
+    text="All 1 098 labelled undirected graphs on 2..5 nodes and all 4 164 "
+         "directed graphs on 2..4 nodes are enumerated, and generated graphs "
+         "of 6..40 nodes (random over the full density range, structured "
+         "families, disjoint unions, isolated nodes, link-weight matrices, "
+         "source/target sets) are compared measure by measure (~70 clauses: "
+         "degrees/strengths, clustering, transitivity, four motif "
+         "clusterings incl. weighted, cliquishness 3-5, higher-order "
+         "transitivity, weighted/unweighted path lengths, closeness, "
+         "efficiency, vulnerability, node/link/interregional betweenness, "
+         "Newman and Arenas random-walk betweenness, matching index, "
+         "coreness, assortativity, Laplacians, eigenvector centrality, "
+         "PageRank, synchronizability, n.s.i. measures from their formulas "
+         "and their unit-weight relations) with vp/ref/graph.py. "
+         "Exploration: exhaustive below the stated sizes, sampled above.",
+    note="Trusted: vp/ref/graph.py (plain numpy, written from the "
+         "docstrings and cited papers). Spectral / closeness-type measures "
+         "only on connected undirected graphs; int16/int32 overflow sizes "
+         "are unreachable.",
+    design="3/C03")
+
 NOT_CLAIMED = {}
 
 
